@@ -354,3 +354,160 @@ func checkInterfaceComparisons(c *core.Ctx) {
 		})
 	}
 }
+
+// checkOptionalScratch (C20.R13): per-thread scratch structures of the EM drivers allocate some of their fields only when an
+// option asks for them (the transition accumulators tr and xi only when transitions are optimised). Such a field is nil
+// otherwise, so every use of it (or of a local copy of it) has to sit under a nil test of a field allocated together with
+// it. (Baum-Welch with OptimizeTransitions = false reset `tr` unconditionally and dereferenced nil.)
+func checkOptionalScratch(c *core.Ctx) {
+	c.Rule("C20.R13", "scratch fields that are allocated only under an option are used only under a nil test of a field allocated with them", 4)
+	p := c.Pkg("statistics/generic")
+	if p == nil {
+		c.Unknown("C20.R13", "statistics/generic", "package loaded", token.NoPos, "not loaded")
+		return
+	}
+	info := p.TypesInfo
+	// 1. optional fields: assigned a non-nil value only inside if-bodies; grouped by that if statement
+	type fieldKey struct{ f *types.Var }
+	group := map[*types.Var]*ast.IfStmt{}
+	uncond := map[*types.Var]bool{}
+	core.EachFunc(p, func(_ *ast.File, fd *ast.FuncDecl) {
+		var stack []ast.Node
+		ast.Inspect(fd.Body, func(n ast.Node) bool {
+			if n == nil {
+				stack = stack[:len(stack)-1]
+				return true
+			}
+			stack = append(stack, n)
+			as, ok := n.(*ast.AssignStmt)
+			if !ok {
+				return true
+			}
+			for i, l := range as.Lhs {
+				sel, ok := ast.Unparen(l).(*ast.SelectorExpr)
+				if !ok || i >= len(as.Rhs) {
+					continue
+				}
+				fv, ok := info.Uses[sel.Sel].(*types.Var)
+				if !ok || !fv.IsField() || fv.Exported() {
+					continue
+				}
+				switch fv.Type().Underlying().(type) {
+				case *types.Pointer, *types.Interface:
+				default:
+					continue
+				}
+				if types.ExprString(as.Rhs[i]) == "nil" {
+					continue
+				}
+				var enclosing *ast.IfStmt
+				for k := len(stack) - 1; k >= 0; k-- {
+					if is, ok := stack[k].(*ast.IfStmt); ok && is.Body.Pos() <= as.Pos() && as.End() <= is.Body.End() {
+						enclosing = is
+						break
+					}
+				}
+				if enclosing == nil {
+					uncond[fv] = true
+				} else if _, has := group[fv]; !has {
+					group[fv] = enclosing
+				}
+			}
+			return true
+		})
+	})
+	optional := map[*types.Var]*ast.IfStmt{}
+	for f, g := range group {
+		if !uncond[f] {
+			optional[f] = g
+		}
+	}
+	if len(optional) == 0 {
+		c.Unknown("C20.R13", "statistics/generic", "optional scratch fields found", token.NoPos, "no field is allocated only under a condition")
+		return
+	}
+	// 2. uses
+	core.EachFunc(p, func(_ *ast.File, fd *ast.FuncDecl) {
+		alias := map[types.Object]*types.Var{}
+		ast.Inspect(fd.Body, func(n ast.Node) bool {
+			as, ok := n.(*ast.AssignStmt)
+			if !ok || len(as.Lhs) != len(as.Rhs) {
+				return true
+			}
+			for i, r := range as.Rhs {
+				if sel, ok := ast.Unparen(r).(*ast.SelectorExpr); ok {
+					if fv, ok := info.Uses[sel.Sel].(*types.Var); ok && optional[fv] != nil {
+						if id, ok := as.Lhs[i].(*ast.Ident); ok {
+							o := info.Defs[id]
+							if o == nil {
+								o = info.Uses[id]
+							}
+							if o != nil {
+								alias[o] = fv
+							}
+						}
+					}
+				}
+			}
+			return true
+		})
+		fieldOf := func(e ast.Expr) *types.Var {
+			e = ast.Unparen(e)
+			if id, ok := e.(*ast.Ident); ok {
+				return alias[info.Uses[id]]
+			}
+			if sel, ok := e.(*ast.SelectorExpr); ok {
+				if fv, ok := info.Uses[sel.Sel].(*types.Var); ok && optional[fv] != nil {
+					return fv
+				}
+			}
+			return nil
+		}
+		var stack []ast.Node
+		k := 0
+		ast.Inspect(fd.Body, func(n ast.Node) bool {
+			if n == nil {
+				stack = stack[:len(stack)-1]
+				return true
+			}
+			stack = append(stack, n)
+			ce, ok := n.(*ast.CallExpr)
+			if !ok {
+				return true
+			}
+			sel, ok := ce.Fun.(*ast.SelectorExpr)
+			if !ok {
+				return true
+			}
+			fv := fieldOf(sel.X)
+			if fv == nil {
+				return true
+			}
+			// the allocation site itself
+			if is := optional[fv]; is.Body.Pos() <= ce.Pos() && ce.End() <= is.Body.End() {
+				return true
+			}
+			k++
+			guarded := false
+			for _, anc := range stack {
+				is, ok := anc.(*ast.IfStmt)
+				if !ok || !(is.Body.Pos() <= ce.Pos() && ce.End() <= is.Body.End()) {
+					continue
+				}
+				ast.Inspect(is.Cond, func(m ast.Node) bool {
+					be, ok := m.(*ast.BinaryExpr)
+					if !ok || be.Op != token.NEQ || types.ExprString(be.Y) != "nil" {
+						return true
+					}
+					if g := fieldOf(be.X); g != nil && optional[g] == optional[fv] {
+						guarded = true
+					}
+					return true
+				})
+			}
+			c.Check(guarded, "C20.R13", c.FuncName(p, fd), fmt.Sprintf("use #%d of optional field %s is under a nil test", k, fv.Name()), ce.Pos(),
+				"the field "+fv.Name()+" is allocated only when an option requests it, but "+types.ExprString(ce.Fun)+" is called without a nil test of it (or of a field allocated with it): with the option switched off this dereferences nil")
+			return true
+		})
+	})
+}
